@@ -26,6 +26,24 @@ def lens_str(ls):
     return ",".join(out)
 
 
+def wakeups_needed(op_strings):
+    """upper bound of the POLLOUT wake-ups the writes in these op lists can cost beyond their scripted answers:
+    a 0-byte write skips exactly one zero-length buffer, and every 1024 buffers need a call of their own"""
+    n = 0
+    for text in op_strings:
+        for tok in text.split():
+            if tok[0] in "WVNMT" and len(tok) > 1:
+                nb = 0
+                for part in tok[1:].split(","):
+                    a, _, k = part.partition("*")
+                    k = int(k) if k else 1
+                    nb += k
+                    if int(a) == 0:
+                        n += k
+                n += 1 + nb // 1024
+    return n
+
+
 def gen_bufs(rng, big_ok=True):
     r = rng.random()
     if big_ok and r < 0.03:       # more than IOV_MAX buffers
@@ -129,8 +147,7 @@ def gen_case(rng):
     for _ in range(rng.choice([0, 0, 2, 6, 12])):
         behs.append(inner_ops())
     # settle: enough wake-ups that everything queued is written and called back
-    zeros = sum(1 for b in written for x in b if x == 0)
-    settle = min(zeros, 1600) + len(script) + 8
+    settle = min(wakeups_needed(ops + behs), 4000) + len(script) + 8
     tail = ["R"] * settle
     if rng.random() < 0.5:
         tail += ["C", "R"]
@@ -187,8 +204,7 @@ def gen_conn_case(rng):
         r = rng.random()
         script.append("n%d" % rng.choice(bounds) if r < 0.5 else
                       rng.choice(["e11", "e105", "e4", "e4", "n0", "p", "e32"]))
-    zeros = sum(1 for b in written for x in b if x == 0)
-    tail = ["R"] * (min(zeros, 1600) + len(script) + 12)
+    tail = ["R"] * (min(wakeups_needed(ops + behs), 4000) + len(script) + 12)
     if rng.random() < 0.4:
         tail += ["C", "R"]
     return "0 %d %s ; %s ; %s ; %s ; settle%d" % (shutans, conn, " ".join(ops + tail), " | ".join(behs),
@@ -239,8 +255,7 @@ def gen_ipc_case(rng):
         r = rng.random()
         script.append("n%d" % rng.choice(bounds) if r < 0.55 else
                       rng.choice(["e11", "e11", "e105", "e4", "e4", "n0", "n1", "p", "e32"]))
-    zeros = sum(1 for b in written for x in b if x == 0)
-    tail = ["R"] * (zeros + len(script) + 10)
+    tail = ["R"] * (wakeups_needed(ops + behs) + len(script) + 10)
     if rng.random() < 0.4:
         tail += ["C", "R"]
     return "0 0 - 1 ; %s ; %s ; %s ; settle%d" % (" ".join(ops + tail), " | ".join(behs), " ".join(script), len(tail))
@@ -300,7 +315,7 @@ def gen_huge_case(rng):
     if rng.random() < 0.55:
         tail = ["R"] * rng.choice([0, 1, 3]) + ["C", "R"]
     else:
-        tail = ["R"] * (need + len(script) + 10)
+        tail = ["R"] * (need + wakeups_needed(ops + behs) + len(script) + 10)
         if rng.random() < 0.3:
             tail += ["C", "R"]
     return "0 0 ; %s ; %s ; %s ; settle%d" % (" ".join(ops + tail), " | ".join(behs), " ".join(script), len(tail))
